@@ -1,6 +1,7 @@
 """C06 - references follow their target through rename and move: on the item-name path and on both move paths every
 Ok path performs all maintenance steps (re-key path index, rewrite referrer text, re-key referrer map); the rewrite is
 segment-safe and touches only keys with the old prefix / paths of the moved subtree."""
+import re
 from ir import Program, callee_of
 from flow import origins, is_local_op, call_matches, must_pass, source_names, const_val
 import events as E
@@ -186,6 +187,47 @@ def run(ctx):
                                 okf = True
         C.check(okf, 'C06-MUST-splice', fn + '|text-built-from-stripped-remainder', '%s does not build the new reference text from the remainder returned by strip_prefix(old prefix)' % fn, '%s:%d' % (b.file, b.line),
                 sample={'fn': fn, 'text': 'format!("{new_prefix}{remainder}")'})
+    # every referrer IS rewritten: the lock on the referring element is taken blockingly (a try-lock whose failure is ignored leaves that
+    # reference with the old text, filed under the new key), and in the cross-model move the rewrite follows the prefix match
+    # unconditionally (the matched paths are the paths collected from the moved subtree: no second test can be needed)
+    C.rule('C06-MUST-every-referrer', 'the text write into a referring element is made through a blocking write lock in set_item_name / move_element_local / move_element_full; in move_element_full every path from the Some edge of strip_prefix(old prefix) to the registration of the reference passes the text write')
+    import events as _E
+    from flow import deep_sources as _ds, switch_edges_on_call_result as _sw
+    for fn in ('ElementRaw::set_item_name', 'ElementRaw::move_element_local', 'ElementRaw::move_element_full'):
+        b = P.get(fn)
+        bad = []
+        nw = 0
+        for x in P.with_closures(b):
+            wsites = [(o['pos'], _E.recv_place(x, x.blocks[o['pos'][0]]['term']) if x.blocks[o['pos'][0]]['term']['k'] == 'call' and o['pos'][1] == x.nstmts(o['pos'][0]) else None) for o in _E.content_ops(x) if o['item'] == 'CharacterData']
+            wsites += [(pos, t['args'][0]) for pos, t in x.iter_calls() if call_matches(t, r'ElementRaw>?::set_character_data$') and t['args']]
+            for pos, rp in wsites:
+                nw += 1
+                if rp is None:
+                    # index-assign statement: the place written is in the statement
+                    st_ = x.blocks[pos[0]]['stmts'][pos[1]] if pos[1] < x.nstmts(pos[0]) else None
+                    rp = st_['dst'] if st_ and st_['k'] == 'assign' else None
+                if rp is None or not is_local_op(rp):
+                    continue
+                cs_ = _ds(x, rp, depth=12)[1]
+                if any(re.search(r'RwLock::<R, T>::try_write\w*$', c or '') for c in cs_):
+                    bad.append(x.where(pos))
+        C.check(nw > 0 and not bad, 'C06-MUST-every-referrer', fn.split('::')[-1] + '|referrer-locked-blockingly', '%s writes the new reference text through a try-lock on the referring element: when the lock is not obtained the reference keeps its old text '
+                '(and is filed under the new path), so it dangles after the rename / move' % fn, bad[0] if bad else '%s:%d' % (b.file, b.line), sample={'fn': fn, 'text_writes': nw, 'lock': 'RwLock::write'})
+    mfull = P.get('ElementRaw::move_element_full')
+    wr_ = calls(mfull, r'ElementRaw>?::set_character_data$')
+    reg_ = [pos for pos, t in mfull.iter_calls() if (callee_of(t) or '').endswith('add_reference_origin')]
+    sp_ = [q for q in calls(mfull, r'str>?::strip_prefix$') if wr_ and any(w_ in mfull.reach_from(q) for w_ in wr_) and any(h in _E.loops_containing(mfull, [q]) for h in _E.loops_containing(mfull, wr_))]
+    oku = bool(wr_) and bool(reg_) and bool(sp_)
+    for q in sp_:
+        sw = _sw(mfull, q)
+        if not sw:
+            oku = False
+            continue
+        some_t = sw[1].get('1', sw[2])
+        if not must_pass(mfull, (some_t, 0), reg_, through=set(wr_)):
+            oku = False
+    C.check(oku, 'C06-MUST-every-referrer', 'move_element_full|rewrite-follows-the-prefix-match', 'in move_element_full a reference whose target path matched the old prefix can reach its registration without having been rewritten (a further condition between the '
+            'prefix match and the write): the reference keeps a path of the source model', mfull.where(wr_[0]) if wr_ else '%s:%d' % (mfull.file, mfull.line), sample={'fn': 'move_element_full', 'from': 'strip_prefix(src prefix) = Some', 'to': 'add_reference_origin', 'through': 'set_character_data'})
     return C.finish('Ordered maintenance obligations on the rename and the two move paths, each a dominance / all-Ok-paths query on MIR. '
                     'Does not decide that each reference resolves to the same object afterwards (needs the run-time maps).')
 
